@@ -187,7 +187,14 @@ class TrigTime:
             """Implement task.add_done_callback()."""
             ast_ctx = None
             if type(callback) is EvalFuncVar:
-                ast_ctx = callback.get_ast_ctx()
+                #
+                # the callback gets its own interpreter context (same name and global
+                # context as the one that defined it): callbacks of several tasks can be
+                # running at the same time
+                #
+                def_ctx = callback.get_ast_ctx()
+                ast_ctx = AstEval(def_ctx.name, def_ctx.get_global_ctx())
+                Function.install_ast_funcs(ast_ctx)
             Function.task_add_done_callback(task, ast_ctx, callback, *args, **kwargs)
 
         funcs = {
